@@ -481,6 +481,19 @@ func (r *runner) run() int {
 		reports = append(reports, rep)
 		fmt.Printf("  %-40s paths=%d completed=%d viol=%d inconcl=%d queries=%d/%d/%d wall=%.1fs\n", name, res.Paths, res.Completed, len(res.Violations), len(rep.Inconclusive),
 			res.Solver.Sat, res.Solver.Unsat, res.Solver.Unknown, res.Wall.Seconds())
+		if os.Getenv("VERIF_STOP_AT_FIRST_VIOLATION") != "" {
+			// seed sweeps only: the remaining harnesses cannot change the verdict "caught"
+			stop := false
+			for _, c := range allViol {
+				if c.status == "confirmed" && matchFinding(findings, r.id, c.v) == nil {
+					stop = true
+				}
+			}
+			if stop {
+				fmt.Println("  (VERIF_STOP_AT_FIRST_VIOLATION: remaining harnesses not run)")
+				break
+			}
+		}
 	}
 	// classify
 	exit := 0
